@@ -36,7 +36,10 @@ class CallableDefault(object):
 
 
 SUBSTITUTES = [('none',), ('lit', 5), ('lit', 0), ('lit', ''), ('lit', []), ('lit', {}), ('lit', False), ('fn',)]
-FALLBACKS = [None, ['old.alias'], ['nope'], ['nope', 'old.alias'], ('fn', ['old.alias']), ('fn', ['nope'])]
+FALLBACKS = [None, ['old.alias'], ['nope'], ['nope', 'old.alias'], ('fn', ['old.alias']), ('fn', ['nope']),
+             # the aliases given as another kind of iterable than a list
+             ('as', 'tuple', ['nope', 'old.alias']), ('as', 'dict', ['old.alias']), ('as', 'dict_values', ['nope', 'old.alias']), ('as', 'dict_keys', ['nope']),
+             ('as', 'iterable', ['nope', 'old.alias']), ('as', 'getitem', ['old.alias']), ('as', 'frozenset', ['old.alias'])]
 
 
 def base_prog(static):
@@ -133,7 +136,7 @@ def judge_input_call(ctx, sess, rep, ev, d, present, w):
     args, kwargs = ev['args'], ev['kwargs']
     main, cpos, ckw = rep.key_identity(d, args, kwargs)
     fb = d.get('fallback')
-    fbl = list(fb[1]) if isinstance(fb, tuple) else (list(fb) if fb else [])
+    fbl = (list(fb[2]) if fb[0] == 'as' else list(fb[1])) if isinstance(fb, tuple) else (list(fb) if fb else [])
     possible = [(a, cpos, ckw) for a in [main] + fbl]
     sub = d.get('substitute', ('none',))
     pol = ref_input_policy(set(present), possible, d.get('run_original'), None if sub[0] == 'none' else sub)
